@@ -4,7 +4,7 @@ import muxgen
 import muxprop
 from muxprop import real, model_cmds, model_result, compare, shrink_candidates  # noqa: F401
 import pyref
-from catalog import dec
+from catalog import enc, dec
 
 PROPERTY = 'C10'
 ANCHORS = ['rxsci/operators/first.py', 'rxsci/operators/last.py', 'rxsci/operators/take.py', 'rxsci/operators/distinct.py',
@@ -55,6 +55,18 @@ def _cases(tier, rng):
             yield {'kind': 'plain', 'term': [['duc', km]], 'items': xs, 'no_model': True}
             yield {'kind': 'mux', 'term': [['group_by', ['mod', 2], [['duc', km]]]], 'items': xs + xs, 'no_model': True}
             yield {'kind': 'mux', 'term': [['distinct', km]], 'items': xs, 'no_model': True}
+    # consecutive items that are equal but not the same value (1, 1.0, True; 0, 0.0, -0.0, False): operators whose state IS an item
+    # (last, lag, pad_end / pad_start without a value) hand out the item they were given, not an equal one seen earlier
+    F = lambda x: enc(float(x))     # noqa: E731
+    EQV = [[1, F(1.0), True], [0, F(0.0), False, F(-0.0)], [2, F(2.0)]]
+    for _ in range({'quick': 40, 'thorough': 400, 'search': 20}[tier]):
+        xs = []
+        for _j in range(rng.choice([2, 3, 5])):
+            fam = rng.choice(EQV)
+            xs += [rng.choice(fam) for _k in range(rng.choice([1, 2, 3]))]
+        op = rng.choice([['last'], ['lag', 1], ['lag', 2], ['pad_end', 2, None], ['pad_start', 1, None], ['first'], ['take', 2]])
+        yield {'kind': 'mux', 'term': [op], 'items': xs, 'no_model': True}
+        yield {'kind': 'mux', 'term': [['group_by', ['const', 7], [op]]], 'items': xs, 'no_model': True}
     # consumers that modify what they are handed in place: an emitted chunk / item belongs to the consumer from then on, what the
     # operator emits next is still defined by the list semantics of ITS input (judged by the list semantics alone)
     for _ in range({'quick': 30, 'thorough': 300, 'search': 20}[tier]):
@@ -155,7 +167,7 @@ def _oracle(case, r):
                 ch, fin = pyref.ref_pipe(t[0][2], [dec(x) for x in xs_])
                 from catalog import enc
                 want_ = [enc(x) for c in ch for x in c] + [enc(x) for x in fin]
-                if outs_ != want_:
+                if muxprop.strict_ne(outs_, want_):
                     return '%s on the group with items %s (interleaved with another group): real %s, list semantics %s' % (
                         t[0][2], xs_, str(outs_)[:200], str(want_)[:200])
             return None
@@ -172,7 +184,7 @@ def _oracle(case, r):
         # plain first/take complete early: the statement is about WHICH items, not when the stream ends
         if [o for c in got for o in c] == [o for c in want for o in c]:
             return None
-    if got != want:
+    if muxprop.strict_ne(got, want):
         return '%s over %s: real %s, list semantics %s' % (t, case['items'], str(got)[:300], str(want)[:300])
     return None
 
